@@ -133,7 +133,7 @@ impl Property for C07 {
         ]
     }
     fn expected_probes(&self) -> Vec<&'static str> {
-        vec!["ula_read", "ula_write", "paging_write", "ay_select", "ay_data", "ay_read", "kempston_read", "mouse_read", "extender_read", "extender_write", "floating_border", "floating_fetch", "unclaimed_write", "multi_device_skipped", "paging_alias", "ay_alias", "ear_follows_tape", "floating_exact", "extender_installed_late", "extender_replaced", "extender_claims_changed", "snapshot_loaded_midrun", "ula_same_value_again", "ay_disabled_in_settings", "ay_toggled_by_setter", "extender_only_port", "extender_overrides_builtin", "szx_loaded_midrun"]
+        vec!["ula_read", "ula_write", "paging_write", "ay_select", "ay_data", "ay_read", "kempston_read", "mouse_read", "extender_read", "extender_write", "floating_border", "floating_fetch", "unclaimed_write", "multi_device_skipped", "paging_alias", "ay_alias", "ear_follows_tape", "floating_exact", "extender_installed_late", "extender_replaced", "extender_claims_changed", "snapshot_loaded_midrun", "ula_same_value_again", "ay_disabled_in_settings", "ay_toggled_by_setter", "extender_only_port", "extender_overrides_builtin", "szx_loaded_midrun", "paging_write_while_locked"]
     }
 
     fn gen(&self, rng: &mut Rng, _tier: Tier, _idx: u64) -> Scenario {
@@ -151,6 +151,7 @@ impl Property for C07 {
         sc.set("ay_toggle", rng.chance(1, 3) as i64);
         sc.set("snap_every", *rng.pick(&[0i64, 0, 25, 60]));
         sc.set("ext_dyn", rng.chance(1, 2) as i64);
+        sc.set("may_lock", rng.chance(1, 3) as i64);
         sc.set("seed", (rng.next() >> 2) as i64);
         sc.set("n", if sc.get("tape") != 0 { 260 } else { 120 });
         sc
@@ -263,6 +264,7 @@ impl Property for C07 {
         let mut last_ula_v: Option<u8> = None;
         let mut force_port: Option<(u16, Option<u8>)> = None;
         let snap_every = sc.get("snap_every").clamp(0, 1000) as u64;
+        let may_lock = sc.get("may_lock") != 0;
         let mut ay_regs = [0u8; 16];
         let mut ay_sel = 0usize;
         let mut border = e.border_color() as u8;
@@ -336,7 +338,11 @@ impl Property for C07 {
                     e.load_snapshot(rustzx_core::host::Snapshot::Sna(SimAsset::plain(bytes))).map_err(|x| Fail::new("C07.load_snapshot", "", format!("{:?}", x)))?;
                 } else {
                     ctx.probe("szx_loaded_midrun");
-                    let opt = crate::snapfmt::SzxOptions { compress: vec![false; 8], ..Default::default() };
+                    // ... or carries them describing the devices as they are (keyboard flags 0 = not an issue 2
+                    // board, a last OUT with the speaker / MIC bits set): bit 6 of the ULA port stays the tape's
+                    // (no mouse chunk: it would legitimately replace the mouse, counters included)
+                    s.kempston = conf.kempston;
+                    let opt = crate::snapfmt::SzxOptions { compress: vec![false; 8], with_keyb: rng.bool(), fe_hi: rng.u8() & 0x18, ..Default::default() };
                     e.load_snapshot(rustzx_core::host::Snapshot::Szx(SimAsset::plain(crate::snapfmt::write_szx(&s, &opt)))).map_err(|x| Fail::new("C07.load_snapshot", "", format!("{:?}", x)))?;
                 }
                 border = e.border_color() as u8;
@@ -384,7 +390,8 @@ impl Property for C07 {
                 _ => {}
             }
             let mut write = rng.bool();
-            let mut v = rng.u8() & !0x20; // never lock paging
+            // (in a third of the runs the program may lock paging; every later paging write is then ignored)
+            let mut v = if may_lock { rng.u8() } else { rng.u8() & !0x20 };
             if let Some((p, fv)) = force_port.take() {
                 port = p;
                 if let Some(fv) = fv {
@@ -497,7 +504,11 @@ impl Property for C07 {
                         if port != 0x7FFD {
                             ctx.probe("paging_alias");
                         }
-                        latch = v;
+                        if latch & 0x20 == 0 {
+                            latch = v;
+                        } else {
+                            ctx.probe("paging_write_while_locked");
+                        }
                     }
                     Some(Dev::AySel) => {
                         ctx.probe("ay_select");
